@@ -159,4 +159,37 @@ only the budget moves -/
 theorem dec_budget (X : ℤ) (P β' β bits : ℕ) (h : β' + bits = β) : dec X P β' * 2 ^ bits = dec X P β := by
   simp only [dec]; rw [mul_assoc, ← pow_add, h]
 
+
+/-- shape of the exact kernels (`glwe_add_into`, `glwe_sub`, `glwe_add_assign`, `glwe_sub_assign`,
+`glwe_negate`) once the truncation of longer operands is accounted for: three limb counts, no wrap,
+`2^(Po+Pa) · X' = σo · 2^(Pr+Pa) · Xo + σa · 2^(Pr+Po) · Xa + e` -/
+theorem dec_of_exact3 (X' Xo Xa e σo σa : ℤ) (Pr Po Pa β : ℕ) (U : ℚ)
+    (hrel : 2 ^ (Po + Pa) * X' = σo * 2 ^ (Pr + Pa) * Xo + σa * 2 ^ (Pr + Po) * Xa + e)
+    (he : |(e : ℚ)| ≤ U * 2 ^ (Po + Pa)) :
+    Near (dec X' Pr β) (σo * dec Xo Po β + σa * dec Xa Pa β) (2 ^ β) (U * 2 ^ β / 2 ^ Pr) := by
+  have hrelq : (2 : ℚ) ^ Po * 2 ^ Pa * X' = σo * (2 ^ Pr * 2 ^ Pa) * Xo + σa * (2 ^ Pr * 2 ^ Po) * Xa + e := by
+    have : ((2 ^ (Po + Pa) * X' : ℤ) : ℚ) = ((σo * 2 ^ (Pr + Pa) * Xo + σa * 2 ^ (Pr + Po) * Xa + e : ℤ) : ℚ) := by
+      rw [hrel]
+    rw [pow_add, pow_add, pow_add] at this
+    push_cast at this
+    exact this
+  have hA := two_pow_pos Pa
+  have hB := two_pow_pos Pr
+  have hC := two_pow_pos β
+  have hO := two_pow_pos Po
+  refine ⟨0, (e : ℚ) / (2 ^ Pr * (2 ^ Po * 2 ^ Pa)) * 2 ^ β, ?_, ?_⟩
+  · simp only [dec, tor]
+    generalize (2 : ℚ) ^ Pa = A at *
+    generalize (2 : ℚ) ^ Pr = B at *
+    generalize (2 : ℚ) ^ β = C at *
+    generalize (2 : ℚ) ^ Po = O at *
+    have h1 : (X' : ℚ) / B * C = (O * A * X') / (O * A * B) * C := by field_simp
+    rw [h1, hrelq]
+    field_simp
+    ring
+  · rw [abs_mul, abs_div, abs_of_pos hC, abs_of_pos (by positivity : (0 : ℚ) < 2 ^ Pr * (2 ^ Po * 2 ^ Pa))]
+    have hU : U * 2 ^ β / 2 ^ Pr = U * (2 ^ Po * 2 ^ Pa) / (2 ^ Pr * (2 ^ Po * 2 ^ Pa)) * 2 ^ β := by field_simp
+    rw [hU, ← pow_add]
+    gcongr
+
 end Ckks.Sem
